@@ -64,6 +64,57 @@ def _ident_always_valid(ast, b, site):
     return tmpl, "template `%s` with %s: an identifier for every value" % (tmpl, ", ".join(tys) or "no arguments")
 
 
+def _len_after_push(b, site):
+    """`len - 1` where `len` is the result of Vec::len called in the block that directly follows a Vec::push on the same
+    vector place (no other statement in between can shrink it)"""
+    from mirlib import backward_slice
+    t = site["term"]
+    ops = t.get("ops") or []
+    if len(ops) != 2:
+        return False
+    c = op_const(ops[1])
+    p = op_place(ops[0])
+    if not c or str(c.get("int")) != "1" or not p or p["p"]:
+        return False
+    # the block that computes the length
+    len_blocks = [i for i, tt in b.calls() if (callee_name(tt) or "").endswith("Vec::<T, A>::len") or (callee_name(tt) or "").endswith("Vec::<T>::len")]
+    for lb in len_blocks:
+        tt = b.blocks[lb]["term"]
+        if (tt.get("dest") or {}).get("l") != p["l"] and not _copies_to(b, (tt.get("dest") or {}).get("l"), p["l"]):
+            continue
+        if tt.get("target") != site["block"] and site["block"] not in b.succ(lb):
+            continue
+        vec_roots = _place_roots(b, tt["args"][0])
+        for pb in b.preds().get(lb, []):
+            pt = b.blocks[pb]["term"]
+            if pt["k"] == "Call" and re.search(r"Vec::<T(, A)?>::push$", callee_name(pt) or "") and _place_roots(b, pt["args"][0]) == vec_roots and vec_roots:
+                return True
+    return False
+
+
+def _copies_to(b, src, dst):
+    if src is None:
+        return False
+    for _i, _j, s in b.assigns():
+        if s["place"]["l"] == dst and not s["place"]["p"] and s["rv"]["k"] == "Use":
+            q = op_place(s["rv"]["ops"][0])
+            if q and q["l"] == src and not q["p"]:
+                return True
+    return False
+
+
+def _place_roots(b, op):
+    """(root local, projection text) of the place a reference operand points to, following one level of `&mut` temporaries"""
+    q = op_place(op)
+    if q is None:
+        return None
+    for _i, _j, s in b.assigns():
+        if s["place"]["l"] == q["l"] and not s["place"]["p"] and s["rv"]["k"] == "Ref" and s["rv"].get("place"):
+            pl = s["rv"]["place"]
+            return (pl["l"], tuple(pl["p"]))
+    return (q["l"], tuple(q["p"]))
+
+
 def p1_inventory(ctx, cfgs):
     r = Rule("C09.P1", "panic-capable site inventory vs confirmed table",
              "a panic-capable construct reachable from the load entry points that is not known to be guarded can be "
@@ -91,6 +142,9 @@ def p1_inventory(ctx, cfgs):
                     if all(ty in ("usize", "?") for ty in tys):
                         r.inst("%s#Overflow(Add)" % b.name, "auto-discharged: usize length/offset addition", cfg=cfg)
                         continue
+                if s["kind"] == "assert" and s["what"] == "Overflow(Sub)" and _len_after_push(b, s):
+                    r.inst("%s#Overflow(Sub)@len-after-push" % b.name, "auto-discharged: `v.len() - 1` computed immediately after `v.push(..)` on the same vector (the length is at least 1)", cfg=cfg)
+                    continue
                 if s["kind"] == "ident-new" and s["what"] == "format_ident!":
                     why = _ident_always_valid(ctx.ast, b, s)
                     if why:
